@@ -430,6 +430,7 @@ structure CH where
 
 structure SrvSettings where
   minVersion : Ver
+  maxVersion : Ver
   versions : List Ver                    -- settings.versions
   deriving Repr
 
@@ -639,8 +640,10 @@ def chkVersionNegotiation (s : SrvSettings) (h : CH) : Chk :=
   | some vs =>
     match vs with
     | none => .error (.py .assertionError "getFirstMatching: assert matches is not None")
-    | some l => alertIf (!(s.versions.any (l.contains ·))) dProtocolVersion
-        "supported_versions did not include version we support" done
+    | some l =>
+      -- only the versions inside of the configured range are acceptable
+      alertIf (!((s.versions.filter (fun v => s.minVersion ≤ v && v ≤ s.maxVersion)).any (l.contains ·)))
+        dProtocolVersion "supported_versions did not include version we support" done
 
 def chkGroups (h : CH) : Chk :=
   withExt h.supGroups fun e =>
@@ -664,7 +667,8 @@ def chkRecordSizeLimit (h : CH) : Chk :=
 /-- the version negotiated from supported_versions is TLS 1.3 (`getFirstMatching(settings.versions, ...)`) -/
 def negotiated13 (s : SrvSettings) (h : CH) : Bool :=
   match h.supportedVersions with
-  | .present (some l) => (s.versions.find? (l.contains ·)) == some 0x0304
+  | .present (some l) =>
+    ((s.versions.filter (fun v => s.minVersion ≤ v && v ≤ s.maxVersion)).find? (l.contains ·)) == some 0x0304
   | _ => false
 
 /-- `cipherSuite in certAllSuites/ecdheEcdsaSuites and CertificateType.x509 not in
@@ -715,6 +719,7 @@ structure SH where
   parseError : Bool
   serverVersion : Ver
   supportedVersions : Ext Ver            -- server form: always a version once parsed
+  aligned : Bool                         -- the defragmenter is empty after the ServerHello
   hrrCipherMismatch : Bool               -- hello_retry and hello_retry.cipher_suite != serverHello.cipher_suite
   sessionIdEchoed : Bool
   cipherOffered : Bool                   -- cipher_suite in the client's list filtered for the version
@@ -757,6 +762,7 @@ def shkVersion (c : CliState) (h : SH) : Chk :=
   match shRealVersion h with
   | .error e => .error e
   | .ok rv =>
+    alertIf (0x0303 < rv && !h.aligned) dUnexpectedMessage "ServerHello not aligned with record boundary" <|
     alertIf h.hrrCipherMismatch dIllegalParameter "server selected different cipher in HRR and Server Hello" <|
     alertIf (rv < c.minVersion) dProtocolVersion "Too old version" <|
     alertIf (c.maxVersion < rv && !c.versions.contains rv) dProtocolVersion "Too new version" <|
@@ -771,8 +777,12 @@ def shkBasics (c : CliState) (h : SH) : Chk :=
   alertIf (h.npn && !c.sentNpn) dIllegalParameter "Server responded with unrequested NPN Extension" done
 
 def shkEms (c : CliState) (h : SH) : Chk :=
-  withExt h.ems fun e =>
-  alertIf (e.isNone && c.requireEms) dInsufficientSecurity "Negotiation of Extended master Secret failed" done
+  match shRealVersion h with
+  | .error x => .error x
+  | .ok rv =>
+    withExt h.ems fun e =>
+    alertIf (e.isNone && c.requireEms && rv < 0x0304) dInsufficientSecurity
+      "Negotiation of Extended master Secret failed" done
 
 def shkAlpn (c : CliState) (h : SH) : Chk :=
   withExt h.alpn fun e =>
